@@ -138,3 +138,44 @@ def lookup_probe(uri, dirs, moddir, via, rel, notfiles=()):
         return ("ok", t.filename, ops)
     finally:
         LK.os, TP.Template._compile_from_file, os.getcwd = saved
+
+
+def filter_apply(which, text):
+    from mako import filters
+    fn = {"x": filters.xml_escape, "h": filters.html_escape, "u": filters.url_escape, "trim": filters.trim,
+          "entity": filters.html_entities_escape}[which]
+    return str(fn(text))
+
+
+def encode_replace(text):
+    """real codec machinery with encoding_errors='htmlentityreplace' for several charsets: {charset: (ok, detail)}"""
+    from mako import filters  # registers the handler
+    out = {}
+    for cs in ("ascii", "latin-1", "cp1251", "shift_jis", "utf-8"):
+        try:
+            text.encode(cs, "strict")
+            continue   # natively encodable in this charset: the handler is not involved
+        except UnicodeEncodeError:
+            pass
+        try:
+            b = text.encode(cs, "htmlentityreplace")
+            back = ref_unescape(b.decode(cs))
+            out[cs] = (back == text, "%r.encode(%r, 'htmlentityreplace') = %r decodes to %r" % (text, cs, b, back))
+        except Exception as e:
+            out[cs] = (False, "%r.encode(%r, 'htmlentityreplace') raised %s: %s" % (text, cs, type(e).__name__, e))
+    return out
+
+
+def ref_unescape(text):
+    """reference decoder of &name; (HTML 4 names, html.entities.name2codepoint), &#D; and &#xH; references"""
+    import re
+    from html.entities import name2codepoint
+
+    def one(m):
+        t = m.group(1)
+        if t.startswith("#x") or t.startswith("#X"):
+            return chr(int(t[2:], 16))
+        if t.startswith("#"):
+            return chr(int(t[1:]))
+        return chr(name2codepoint[t]) if t in name2codepoint else m.group(0)
+    return re.sub(r"&(#[0-9]+|#[xX][0-9a-fA-F]+|[A-Za-z][A-Za-z0-9]*);", one, text)
